@@ -172,6 +172,12 @@ def annotate_case(case, ctx):
         ctx.label("examples_share_argmax")
     rows = case["seqlets"]
     df = pandas.DataFrame(rows, columns=["example_idx", "start", "end"])
+    if case.get("extra_cols"):
+        df["attribution"] = [0.5 * i for i in range(len(rows))]        # recursive_seqlets frames carry further columns
+        df["p_value"] = 0.001
+    if case.get("index_offset"):
+        df.index = df.index + case["index_offset"]                       # a frame filtered out of a longer one keeps its labels
+        ctx.label("frame_with_non_default_index")
     nn = min(case["n_nearest"], len(Ts))
     kw = dict(n_score_bins=100, n_target_bins=None, reverse_complement=case["rc"])
     try:
@@ -191,7 +197,11 @@ def annotate_case(case, ctx):
         for k in range(nn):
             require(full[0, i, int(idxs[i, k])] == pvals[i, k], "annotate-index", lambda: "seqlet %d rank %d" % (i, k))
     perm = case["perm"]
-    df2 = pandas.DataFrame([rows[j] for j in perm], columns=["example_idx", "start", "end"])
+    if case.get("frame") == "iloc":
+        df2 = df.iloc[perm]                 # reordered / filtered with pandas: row labels travel with the rows
+        ctx.label("reordered_with_pandas_keeping_labels")
+    else:
+        df2 = pandas.DataFrame([rows[j] for j in perm], columns=["example_idx", "start", "end"])
     idxs2, pvals2 = sut(annotate_seqlets, X, df2, motifs, n_nearest=nn, n_jobs=min(case["n_jobs2"], MAXT), **kw)
     for pos, j in enumerate(perm):
         require(torch.equal(pvals2[pos], pvals[j]), "annotate-depends-on-seqlet-order", lambda: "seqlet %d" % j)
@@ -272,6 +282,7 @@ def annotate_strategy(draw):
             rows.append([1 - rows[-1][0] if rows[-1][0] in (0, 1) else 0, rows[-1][1], rows[-1][2]])   # same span in the sibling example
     n = len(rows)
     return {"targets": targets, "B": B, "L": L, "seed": draw(st.integers(0, 10 ** 6)), "seqlets": rows, "rc": draw(st.booleans()),
+            "frame": draw(st.sampled_from(["fresh", "iloc"])), "index_offset": draw(st.sampled_from([0, 0, 1, 7])), "extra_cols": draw(st.booleans()),
             "n_nearest": draw(st.integers(1, 3)), "n_jobs": draw(st.sampled_from([1, 2, 4])), "n_jobs2": draw(st.sampled_from([1, 3])),
             "perm": list(draw(st.permutations(list(range(n))))), "same_argmax": draw(st.booleans())}
 
